@@ -217,7 +217,15 @@ func (c *Ctx) commitAfterUse() {
 		if s.fn == nil {
 			continue
 		}
-		g := paths.New(c.P, s.fn, 0)
+		// with the private helpers of the same type written into place (a write-and-commit helper of the drain)
+		g := paths.New(c.P, s.fn, 1)
+		sfn, speek, suse := s.fn, s.peek, s.use
+		g.Expand = func(callee *ssa.Function, site ssa.CallInstruction) bool {
+			if callee.Blocks == nil || callee.Pkg != sfn.Pkg || recvNamed(callee) != recvNamed(sfn) || callee.Object() == nil || callee.Object().Exported() {
+				return false
+			}
+			return !speek(site) && !suse(site) && !ir.IsMethod(site.Common(), pkgService, "buffer", "ReadCommit")
+		}
 		commit := nodeM(mMethod(pkgService, "buffer", "ReadCommit"))
 		peeks := nodesMatching(g, nodeM(s.peek))
 		key := s.fn.Name() + ":commit-after-use-of-peeked-bytes"
@@ -239,10 +247,21 @@ func (c *Ctx) commitAfterUse() {
 	}
 	// the amount committed by the drain is what the writer reported written
 	if wt != nil {
+		hosts := []*ssa.Function{wt}
 		for _, call := range ir.Calls(wt) {
-			if !ir.IsMethod(call.Common(), pkgService, "buffer", "ReadCommit") {
-				continue
+			if h := call.Common().StaticCallee(); h != nil && h != wt && h.Blocks != nil && recvNamed(h) == "buffer" && h.Object() != nil && !h.Object().Exported() && c.onlyCalledFrom(h, wt) {
+				hosts = append(hosts, h)
 			}
+		}
+		var commits []ssa.CallInstruction
+		for _, h := range hosts {
+			for _, call := range ir.Calls(h) {
+				if ir.IsMethod(call.Common(), pkgService, "buffer", "ReadCommit") {
+					commits = append(commits, call)
+				}
+			}
+		}
+		for _, call := range commits {
 			a := ir.SeeThrough(call.Common().Args[1])
 			ok := false
 			if ex, isEx := a.(*ssa.Extract); isEx && ex.Index == 0 {
@@ -271,14 +290,40 @@ func (c *Ctx) scratchReset() {
 			p := ir.PathOf(addr)
 			return len(p.Fields) == 1 && p.Fields[0] == "tmp" && !p.Opaque
 		}
+		// the base of an append into the scratch buffer: the buffer as it is (load), or the buffer cut to length 0
+		// (`append(bf.tmp[:0], ...)`, empty whatever it held)
+		tmpBase := func(call *ssa.Call) (load *ssa.UnOp, cutToZero bool, ok bool) {
+			bi, isB := call.Common().Value.(*ssa.Builtin)
+			if !isB || bi.Name() != "append" {
+				return nil, false, false
+			}
+			switch a := call.Common().Args[0].(type) {
+			case *ssa.UnOp:
+				if isTmp(a.X) {
+					return a, false, true
+				}
+			case *ssa.Slice:
+				if u, isU := a.X.(*ssa.UnOp); isU && isTmp(u.X) {
+					zero := func(x ssa.Value) bool {
+						if x == nil {
+							return true
+						}
+						k, ok := x.(*ssa.Const)
+						return ok && k.Value != nil && k.Value.ExactString() == "0"
+					}
+					if zero(a.Low) && a.High != nil && zero(a.High) {
+						return u, true, true
+					}
+				}
+			}
+			return nil, false, false
+		}
 		hasAppend := false
 		for _, b := range fn.Blocks {
 			for _, ins := range b.Instrs {
 				if call, ok := ins.(*ssa.Call); ok {
-					if bi, ok := call.Common().Value.(*ssa.Builtin); ok && bi.Name() == "append" {
-						if u, ok := call.Common().Args[0].(*ssa.UnOp); ok && isTmp(u.X) {
-							hasAppend = true
-						}
+					if _, _, ok := tmpBase(call); ok {
+						hasAppend = true
 					}
 				}
 			}
@@ -337,10 +382,8 @@ func (c *Ctx) scratchReset() {
 				k, ok := v.Len.(*ssa.Const)
 				return ok && k.Value != nil && k.Value.ExactString() == "0"
 			case *ssa.Call:
-				if bi, ok := v.Common().Value.(*ssa.Builtin); ok && bi.Name() == "append" {
-					if u, ok := v.Common().Args[0].(*ssa.UnOp); ok && isTmp(u.X) {
-						return okLoad(u, depth+1)
-					}
+				if u, cut, ok := tmpBase(v); ok {
+					return cut || okLoad(u, depth+1)
 				}
 			}
 			return false
@@ -370,16 +413,12 @@ func (c *Ctx) scratchReset() {
 				if !ok {
 					continue
 				}
-				bi, ok := call.Common().Value.(*ssa.Builtin)
-				if !ok || bi.Name() != "append" {
-					continue
-				}
-				u, ok := call.Common().Args[0].(*ssa.UnOp)
-				if !ok || !isTmp(u.X) {
+				u, cut, ok := tmpBase(call)
+				if !ok {
 					continue
 				}
 				n++
-				c.R.Check(okLoad(u, 0), ruleP5, fn.Name()+":scratch-assembly-starts-empty", c.P.InstrPos(call), "every append into the scratch buffer extends a slice that was reset to length 0 on every path", "an append into the consumer's scratch buffer can extend stale contents of an earlier wrapped read: the consumer receives old bytes again in front of the new ones")
+				c.R.Check(cut || okLoad(u, 0), ruleP5, fn.Name()+":scratch-assembly-starts-empty", c.P.InstrPos(call), "every append into the scratch buffer extends a slice that was reset to length 0 on every path", "an append into the consumer's scratch buffer can extend stale contents of an earlier wrapped read: the consumer receives old bytes again in front of the new ones")
 			}
 		}
 	}
@@ -640,8 +679,18 @@ func (c *Ctx) ringPositions() {
 				}
 				if bo, isB := v.(*ssa.BinOp); isB && bo.Op == token.AND {
 					for _, pr := range [][2]ssa.Value{{bo.X, bo.Y}, {bo.Y, bo.X}} {
-						mp := ir.PathOf(pr[1])
-						if len(mp.Fields) == 0 || mp.Fields[len(mp.Fields)-1] != "mask" {
+						// the mask: the mask field, or size-1 (what the constructor stores there)
+						isMask := false
+						if mp := ir.PathOf(pr[1]); len(mp.Fields) > 0 && mp.Fields[len(mp.Fields)-1] == "mask" {
+							isMask = true
+						} else if mb, isMB := ir.SeeThrough(pr[1]).(*ssa.BinOp); isMB && mb.Op == token.SUB {
+							if k, isK := mb.Y.(*ssa.Const); isK && k.Value != nil && k.Value.ExactString() == "1" {
+								if sp := ir.PathOf(mb.X); len(sp.Fields) > 0 && sp.Fields[len(sp.Fields)-1] == "size" {
+									isMask = true
+								}
+							}
+						}
+						if !isMask {
 							continue
 						}
 						if side == "consumer" && readsCursor(pr[0], cursor, 0) || side == "producer" && fromProducerCursor(pr[0]) {
